@@ -185,7 +185,7 @@ PLANS["C14"] = {
 
 PLANS["C20"] = {
     "level": "model_checking",
-    "assumptions": L1_ASSUME + ["'never blocks forever' is decided up to a 10 s per-call deadline"],
+    "assumptions": L1_ASSUME + ["'never blocks forever' is decided up to a 60 s per-call deadline"],
     "stages": [
         T("general", "general", (60, 1500), ["InvNoPanic"], backends="bolt,badgermem"),
         T("audit", "audit", (30, 600), ["InvNoPanic"]),
@@ -348,6 +348,12 @@ PLANS["C07"] = {
                                 "the data-race clause is decided by the Go race detector under the same drivers, not by TLA+",
                                 "bulk operations in concurrent programs carry no skip/limit (their selection must be decidable from the history)"],
     "stages": [
+        # model level: every interleaving of the store transactions of 2 (thorough: 3) operations, every
+        # pair of operations, every small initial content, both store semantics
+        MC("conc-bolt", "CloverConc", "MC_Conc_bolt.cfg", workers=12),
+        MC("conc-badger", "CloverConc", "MC_Conc_badger.cfg", workers=12),
+        MC("conc-badger-prerepair", "CloverConc", "MC_Conc_badger_prefix.cfg", workers=12, expect_violation="Linearizable"),
+        MC("conc-badger3", "CloverConc", "MC_Conc_badger3.cfg", workers=14, heap="24g", timeout=3000, tier="thorough"),
         {"kind": "lin", "name": "lin", "n": (120, 3000), "maxg": 4, "ops": 3, "chunk": 10},
         {"kind": "lin", "name": "lin-wide", "n": (30, 1000), "maxg": 8, "ops": 3, "chunk": 5, "seed_off": 31},
         {"kind": "race", "name": "race", "n": (40, 600), "maxg": 6},
@@ -357,4 +363,7 @@ PLANS["C07"] = {
 # model configurations shared by the quick checks (their emission is cached by `vcheck warm`)
 WARM = [EDG("warm", [])]
 WARM_MC = [LAWS(f) for f in ("values", "criteria", "norm", "paths")] + [MC_PROPS,
-           MC("plan-laws", "MC_Plan", "MC_Plan_planq.cfg", workers=12)]
+           MC("plan-laws", "MC_Plan", "MC_Plan_planq.cfg", workers=12),
+           MC("conc-bolt", "CloverConc", "MC_Conc_bolt.cfg", workers=12),
+           MC("conc-badger", "CloverConc", "MC_Conc_badger.cfg", workers=12),
+           MC("conc-badger-prerepair", "CloverConc", "MC_Conc_badger_prefix.cfg", workers=12, expect_violation="Linearizable")]
